@@ -8,10 +8,11 @@ import numpy as np
 
 from .. import alph
 from .. import oracles as O
-from ..core import CaseResult
+from ..core import CaseResult, twice
 
 PROP = "C02"
 LEVEL = "exploration"
+SECOND_SCHEDULE = 4  # stride of the reverse-order history pass (0 = off, 1 = every case)
 RULE = ("rotations (integer-quaternion lattice N=2 / N=3 plus Euler-built gimbal-band rotations) x cells (coarse cell alphabet) x 7 hkl x both "
         "modules: u_to_ubi, ubi_to_u, ubi_to_cell, ubi_to_u_b, ubi_to_rod against UBI = f inv(U.B) with B from the harness metric; the "
         "orientation graph U -> UBI -> U, U -> U.B -> QR -> U, U -> UBI -> Rodrigues -> U (every state must stay at U). QR split on every "
@@ -107,7 +108,7 @@ def check_case(case):
                 B = O.b_ref(cell, f)
                 ubi_ref = f * np.linalg.inv(U @ B)
                 un = float(np.max(np.abs(ubi_ref)))
-                ubi = np.asarray(mod.u_to_ubi(U, cell), float)
+                ubi = np.asarray(twice(r, key + ":u_to_ubi", mod.u_to_ubi, U, cell), float)
                 r.check("u_to_ubi", float(np.max(np.abs(ubi - ubi_ref))) / un, tol, key + ":u_to_ubi", "u_to_ubi = f inv(U.B)", ubi_ref, ubi)
                 for src, X in (("ref", ubi_ref), ("chain", ubi)):
                     U2 = np.asarray(mod.ubi_to_u(X), float)
@@ -123,7 +124,7 @@ def check_case(case):
                     g = U @ B @ np.array(h, float)
                     r.check("ubi.g", float(np.max(np.abs(ubi @ g / f - np.array(h, float)))), tol * 10, key + ":hkl=%s" % (h,), "UBI.(U.B.hkl) = f.hkl", h, ubi @ g / f)
                 # U -> U.B -> QR -> (U,B)
-                U4, B4 = mod.ub_to_u_b(U @ B)
+                U4, B4 = twice(r, key + ":ub_to_u_b", mod.ub_to_u_b, U @ B)
                 r.check("ub_to_u_b.U", float(np.max(np.abs(np.asarray(U4) - U))), tol, key + ":ub_to_u_b.U", "ub_to_u_b(U.B) returns U", U, U4)
                 r.check("ub_to_u_b.B", float(np.max(np.abs(np.asarray(B4) - B))) / float(np.max(np.abs(B))), tol, key + ":ub_to_u_b.B", "ub_to_u_b(U.B) returns B", B, B4)
                 # U -> UBI -> Rodrigues -> U
@@ -167,6 +168,16 @@ def check_case(case):
                 r.check("qr.B", float(np.max(np.abs(B - Br))) / bn, tol, key + ":B", "B equals the unique reference", Br, B)
                 r.nontrivial.add(key)
                 r.states += 1
+                # argument kinds: the same (exactly representable) matrix as nested list, int array, float32 array, Fortran-ordered array
+                if si == 0 and case["lo"] >= 0:
+                    kinds = [("list", M.tolist()), ("int64", M.astype(np.int64)), ("float32", M.astype(np.float32)), ("fortran", np.asfortranarray(M))]
+                    for kn, arg in kinds:
+                        try:
+                            U2, B2 = mod.ub_to_u_b(arg)
+                            d = max(float(np.max(np.abs(np.asarray(U2, float) - Ur))), float(np.max(np.abs(np.asarray(B2, float) - Br))) / bn)
+                        except Exception as ex:
+                            d = float("inf")
+                        r.check("qr.argkind", d, tol, key + ":arg=" + kn, "ub_to_u_b gives the same split for a %s argument" % kn)
         r.transitions = r.states
     return r
 
